@@ -74,6 +74,17 @@ func nativeToObject(val any, path map[visit]bool) Object {
 	}
 
 	switch valType.Kind() {
+	case reflect.String:
+		// the named types, like time.Duration, have the kind of a basic type
+		return &Str{Value: reflect.ValueOf(val).String()}
+	case reflect.Bool:
+		return &Bool{Value: reflect.ValueOf(val).Bool()}
+	case reflect.Int, reflect.Int8, reflect.Int16, reflect.Int32, reflect.Int64:
+		return &Int{Value: reflect.ValueOf(val).Int()}
+	case reflect.Uint, reflect.Uint8, reflect.Uint16, reflect.Uint32, reflect.Uint64:
+		return &Int{Value: int64(reflect.ValueOf(val).Uint())}
+	case reflect.Float32, reflect.Float64:
+		return &Float{Value: reflect.ValueOf(val).Float()}
 	case reflect.Struct:
 		return nativeStructToObject(val, path)
 	case reflect.Slice:
